@@ -517,7 +517,7 @@ class Lattice():
             elif d['type'] in ["rectangularunitcell", "RectangularUnitcell"]:
                 net = RectangularUnitcell(pattern=d['pattern'])
             elif d['type'] in ["triangular", "TriangularLattice"]:
-                net = TriangularLattice()
+                net = TriangularLattice(**{k: d[k] for k in ('dims', 'boundary', 'full_patch') if k in d})
             psi = cls(net)
             for site in psi.sites():
                 obj = DATA_CLASSES["Tensor"].from_dict(d['data'][site], config)
